@@ -47,6 +47,7 @@
 static uint8 *paletteBuf = NULL;
 static uint16 Refset     = 0;  /* Ref of image to get next */
 static uint16 Lastref    = 0;  /* Last ref read/written */
+static uint16 Readrigref = 0;  /* Ref of the raster image group read last (0: none yet) */
 static uint16 Writeref   = 0;  /* ref of next image to put in this file */
 static int    foundRig   = -1; /* -1: don't know if HDF file has RIGs
                                     0: No RIGs, try for RI8s etc.
@@ -1226,6 +1227,7 @@ DFR8Iopen(const char *filename, int acc_mode)
         Newdata  = 0;
         Readrig  = Zrig; /* blank out read/write RIGs */
         Writerig = Zrig;
+        Readrigref = 0;
         if (Newpalette != (-1))
             Newpalette = 1; /* need to write out palette */
     }                       /* end if */
@@ -1275,13 +1277,15 @@ DFR8Iriginfo(int32 file_id)
     HEclear();
     /* find next rig */
     if (foundRig) { /* either RIGs present or don't know */
-        if (!Refset && Readrig.image.ref)
-            aid = Hstartread(file_id, DFTAG_RIG, Readrig.image.ref);
+        /* continue behind the group read last: its reference number need not be the one of its
+           image data (files written through GR number the two independently) */
+        if (!Refset && (Readrigref || Readrig.image.ref))
+            aid = Hstartread(file_id, DFTAG_RIG, Readrigref ? Readrigref : Readrig.image.ref);
         do {
             if (Refset)
                 aid = Hstartread(file_id, DFTAG_RIG, Refset);
             else {
-                if (!Readrig.image.ref)
+                if (!Readrigref && !Readrig.image.ref)
                     aid = Hstartread(file_id, DFTAG_RIG, DFREF_WILDCARD);
                 else {
                     if (aid != FAIL && Hnextread(aid, DFTAG_RIG, DFREF_WILDCARD, DF_CURRENT) == FAIL) {
@@ -1309,10 +1313,12 @@ DFR8Iriginfo(int32 file_id)
                         HGOTO_ERROR(DFE_BADRIG, FAIL);
                     } /* end if */
                     Readrig.image.ref = ref;
+                    Readrigref        = ref;
                 } /* end if */
                 else {
-                    foundRig = 1;
-                    Refset   = 0;
+                    foundRig   = 1;
+                    Refset     = 0;
+                    Readrigref = ref;
                 } /* end else */
             }     /* end if */
         } while ((aid != FAIL) && (HEvalue(1) == DFE_BADCALL));
